@@ -3,7 +3,8 @@ from . import props
 
 SIM = ('Exploration by deterministic simulation: seeded runs of two real H2Connection endpoints driven by simulated '
        'applications over a simulated duplex byte network (arbitrary segmentation, stalls, crossing directions, misuse, '
-       'and - where listed - byte/frame corruption and an adversary peer), ')
+       'aftermath of refused calls, and - where listed - byte/frame corruption and an adversary peer whose arbitrary '
+       'frames are tried in what-if branches: deep copies of the whole simulation that are judged and dropped), ')
 NOTE = ('Sampling, not proof. Trusted base: CPython, hyperframe/hpack as installed, the oracle codec / reference HPACK '
         'decoder / wire tracker of h2sim (self-tested by setup_cmd against RFC vectors and differentially).')
 
@@ -14,31 +15,31 @@ ORACLE = {
  'C05': 'credit accounting of acknowledge_received_data vs emitted WINDOW_UPDATE; windows never above maximum; progress at every quiescent point (all received bytes acknowledged => positive windows)',
  'C07': 'per-stream grammar automaton over the returned events only, for client and server roles, including related-event links',
  'C17': 'receive_data returns a list or raises ProtocolError - anything else is a violation (signature: exception type @ raising function)',
- 'C18': 'exactly one GOAWAY per raising receive_data, code = exception code = category assigned by an independent classifier to the offending delivered frame, last-stream-id = highest peer-opened stream',
+ 'C18': 'exactly one GOAWAY per raising receive_data, code = exception code = category assigned by an independent classifier to the offending delivered frame (incl. STREAM_CLOSED for HEADERS on a stream that ended normally), last-stream-id = highest peer-opened stream',
  'C19': 'after any close (GOAWAY sent/received, connection error) only GOAWAY frames are emitted and every frame-producing call raises ProtocolError',
- 'C26': 'per delivered PING exactly one PingReceived and one PING ACK with identical payload in order; PING ACK never answered; ping() emits exactly one PING and accepts only 8-byte bytes',
- 'C29': 'every raising public call raises an h2 exception (or the documented ValueError/TypeError), emits no bytes, and uses NoSuchStreamError / StreamClosedError for never-used / collected streams',
+ 'C26': 'per delivered PING exactly one PingReceived and one PING ACK with identical payload in order; a chunk of nothing but well-formed PINGs never raises (floods of > 64 included); PING ACK never answered; ping() emits exactly one PING and accepts only 8-byte bytes; lazy-read twin: with output left in the buffer the byte stream is the same (the ACK is appended)',
+ 'C29': 'every raising public call raises an h2 exception (or the documented ValueError/TypeError), emits no bytes, and uses NoSuchStreamError / StreamClosedError for never-used / collected streams; acknowledge_received_data on a never-used id must raise',
 }
 ORACLE.update({
  'C01': 'end-to-end history matcher: every frame delivered to the receiver is linked (by stream offset) to the successful call that produced it; the receiver events must equal, in order and bijectively, what that call specifies (normalised headers, body bytes, END_STREAM, trailers, 1xx, resets and codes, pushes, pings, priority, settings, alt-svc, window updates), no receiver exception; plus a fault-free epilogue exchange that must complete (bounded liveness)',
  'C06': 'RFC 7540 5.1 reference table (h2sim/rules.py) evaluated on the wire-tracked pre-state: each call must succeed/fail and each delivered frame must be accepted / ignored / answered with a stream error / a connection error with the mandated code, explicit either-cells for unspecified cases, sound closed-stream memory rule; measured coverage of (role x state x input) cells',
- 'C08': 'per-stream automaton over the frames actually emitted (request or 1xx*/final, DATA, trailers+END_STREAM), role restrictions, refusal exception type',
+ 'C08': 'per-stream automaton over the frames actually emitted (request or 1xx*/final, DATA, trailers+END_STREAM; a responder block without :status before the final response is a trailer block out of order), role restrictions, refusal exception type',
  'C09': 'ids of every opened/promised stream strictly increasing with the right parity and <= 2^31-1; get_next_available_stream_id against the wire-derived watermark; reference verdicts for peer frames on idle/skipped/closed ids; PRIORITY leaves the bookkeeping untouched',
  'C10': 'open/half-closed stream counts from the wire tracker vs open_*_streams; opening sends vs the peer limit as received; peer HEADERS vs the acknowledged local limit',
  'C11': 'FIFO queue of sent SETTINGS frames matched one-to-one with delivered ACKs: SettingsAcknowledged.changed_settings must equal that frame only; RemoteSettingsChanged old/new; exactly one ACK per received frame',
- 'C12': 'independent verdict table per (identifier, value) incl. the history-dependent window-overflow clause, for delivered frames, update_settings and initial values',
+ 'C12': 'independent verdict table per (identifier, value) incl. the history-dependent window-overflow clause (reserved streams included), for delivered frames, update_settings, initial values and the HTTP2-Settings header of an h2c upgrade',
  'C13': 'reference HPACK decoder on every emitted block: must decode to the normalised list of the successful call, also right after failing header calls; the real peer must deliver the same list; encoder table never above the peer limit',
  'C14': 'independent 8.1.2 conformance predicate + never-indexed representation check on tap-decoded blocks, per outbound validate/normalise combination',
  'C15': 'delivered <=> conformant (independent predicate) for blocks in positions the stream state permits; refusal code; delivered list = decoded block with cookie join / header_encoding',
  'C16': 'running body totals per received message vs declared content-length at every END_STREAM placement; no-content responses judged on payload only',
- 'C20': 'frames delivered on streams the receiver had reset (or whose push it refused) must cause no connection error and no events; compression stays in sync; DATA is credited back',
+ 'C20': 'frames delivered on streams the receiver had reset (or whose push it refused) must cause no connection error and no events; compression stays in sync; DATA on them is credited back to the connection window (C05 credit ledger run per step, judged after DATA on a reset stream)',
  'C21': 're-chunk twin (at once vs byte-at-a-time / random partition) and read-amount twin on fresh connections: emitted bytes, events, call outcomes, errors must agree',
  'C22': 'push_stream succeeds iff server & peer allows push (as received) & client-initiated open/half-closed(remote) parent & valid request list & fresh even promised id; client side: disabled push => connection error, valid promise => PushedStreamReceived with right ids and headers, recursion refused',
- 'C23': 'received PRIORITY => exactly one PriorityUpdated (self-dependency: PROTOCOL_ERROR), no output, flow-control state of all streams unchanged; round trip of prioritize() arguments; local argument validation',
+ 'C23': 'received PRIORITY => exactly one PriorityUpdated (self-dependency: PROTOCOL_ERROR), no output, flow-control state of all streams unchanged; priority fields of HEADERS frames (any number of CONTINUATION frames) attached to the header event; round trip of prioritize()/send_headers() arguments to the peer event and to the emitted frame; local argument validation (weight, self-dependency, 31-bit dependency); HEADERS on idle ids below a prioritised idle id still accepted',
  'C24': 'advertise_alternative_service permission table; delivered ALTSVC frames yield exactly the event RFC 7838 prescribes (origin given or own :authority, only before response headers) or are silently ignored',
- 'C25': 'server view of client settings (public remote_settings mapping) equals client local settings over the settings space; stream 1 half-closed both ways; ids 3 / 2 next; continuation judged by the C01 matcher',
- 'C27': 'retained-table sizes after every step: stream table == live streams after clean-up, closed-stream memory <= cap, CONTINUATION backlog <= cap, input buffer <= one frame; CONTINUATION floods and oversize header lists refused (ENHANCE_YOUR_CALM at the acknowledged limit)',
- 'C28': 'process twin: every trace re-executed in fresh interpreters under other PYTHONHASHSEED values, digest of all outputs/events/exceptions identical; tripwires on clocks, random and os.urandom',
+ 'C25': 'server view of client settings (public remote_settings mapping) equals client local settings over the settings space; stream 1 half-closed both ways; ids 3 / 2 next; continuation judged by the C01 matcher and by the C03 send-window oracle (non-default INITIAL_WINDOW_SIZE handed over)',
+ 'C27': 'retained-table sizes after every step: stream table == live streams after clean-up and never growing on a closed connection, closed-stream memory <= cap, CONTINUATION backlog <= cap, input buffer <= one frame; CONTINUATION floods (also of empty fragments) and oversize header lists refused (ENHANCE_YOUR_CALM at the acknowledged limit)',
+ 'C28': 'process twin: every trace re-executed in fresh interpreters under other PYTHONHASHSEED values, digest of all outputs/events/exceptions (type, code and message text, addresses masked) identical; tripwires on clocks, random and os.urandom; a replay file records the hash seeds that disagreed',
 })
 TECH = {
  'C02': 'deterministic simulation, independent wire tap, call-to-frames specification oracle',
